@@ -20,6 +20,72 @@ type dkgAnchors struct {
 	common, plain, qual, joint *types.Named
 	complaintT                 *types.Named
 	m                          *pmodel
+	rolesOf                    map[*types.Named]map[string]string // type -> role -> method name (resolved by role, not by name)
+}
+
+// resolveRoles finds the unexported intake functions by what they do: the method the private-message
+// handler hands the payload to ("share"), the methods the broadcast handler dispatches to under each
+// message tag ("vector", "complaint", "answer"), and the methods wrapping the discrete-log check.
+func (d *dkgAnchors) resolveRoles(w *World) {
+	d.rolesOf = map[*types.Named]map[string]string{}
+	tags := map[string]string{}
+	for role, cn := range map[string]string{"vector": "feldmanVSSVerifVec", "complaint": "feldmanVSSComplaint", "answer": "feldmanVSSComplaintAnswer"} {
+		if v, ok := w.constInt(rootPath, cn); ok {
+			tags[fmt.Sprint(v)] = role
+		}
+	}
+	for _, t := range []*types.Named{d.plain, d.qual} {
+		r := map[string]string{}
+		isOwn := func(f *ssa.Function) bool {
+			return f != nil && f.Signature.Recv() != nil && types.Identical(deref(f.Signature.Recv().Type()), t) && f.Blocks != nil
+		}
+		if hp := w.method(t, "HandlePrivateMsg"); hp != nil {
+			instrs(hp, func(ins ssa.Instruction) {
+				if c, ok := ins.(*ssa.Call); ok && isOwn(c.Call.StaticCallee()) && len(c.Call.Args) == 3 {
+					r["share"] = c.Call.StaticCallee().Name()
+				}
+			})
+		}
+		if hb := w.method(t, "HandleBroadcastMsg"); hb != nil {
+			msg := P(hb, 2)
+			instrs(hb, func(ins ssa.Instruction) {
+				c, ok := ins.(*ssa.Call)
+				if !ok || !isOwn(c.Call.StaticCallee()) || len(c.Call.Args) != 3 {
+					return
+				}
+				for _, f := range w.factsAt(c) {
+					for tv, role := range tags {
+						if f.Expr == msg+"[0] == "+tv {
+							r[role] = c.Call.StaticCallee().Name()
+						}
+					}
+				}
+			})
+		}
+		for _, fn := range w.srcFuncs(rootPath) {
+			if !isOwn(fn) || len(cgoCalls(fn, "G2_check_log")) == 0 {
+				continue
+			}
+			if len(fn.Params) == 1 {
+				r["verifyShare"] = fn.Name()
+			} else {
+				r["checkComplaint"] = fn.Name()
+			}
+		}
+		d.rolesOf[t] = r
+	}
+}
+
+func (d *dkgAnchors) role(t *types.Named, role string) string {
+	if n, ok := d.rolesOf[t][role]; ok {
+		return n
+	}
+	if t == d.qual { // promoted from the embedded plain protocol
+		if n, ok := d.rolesOf[d.plain][role]; ok {
+			return n
+		}
+	}
+	return "<unresolved:" + role + ">"
 }
 
 func (w *World) dkg(rule string) *dkgAnchors {
@@ -95,12 +161,25 @@ func (w *World) dkg(rule string) *dkgAnchors {
 		if f.Name() == "received" && isBool(f.Type()) {
 			m.recvFld = f
 		}
+		if f.Name() == "answerReceived" && isBool(f.Type()) {
+			m.ansFld = f
+		}
 	}
 	if m.idxOwn == nil || m.idxDeal == nil || m.cmap == nil || m.recvFld == nil {
 		w.undecided(rule, "anchor:dkg-fields", token.NoPos, "unresolved anchor: own/dealer index, complaints map or complaint.received")
 		return nil
 	}
 	d.m = m
+	d.resolveRoles(w)
+	m.checkFn = d.role(d.qual, "checkComplaint")
+	for _, t := range []*types.Named{d.plain, d.qual} {
+		for _, role := range []string{"share", "vector"} {
+			if strings.HasPrefix(d.role(t, role), "<unresolved") {
+				w.undecided(rule, "anchor:intake:"+t.Obj().Name()+"/"+role, token.NoPos, "unresolved anchor: "+role+" intake function of "+t.Obj().Name())
+				return nil
+			}
+		}
+	}
 	return d
 }
 
@@ -139,6 +218,9 @@ func (d *dkgAnchors) initialStates() []AState {
 		base[k] = 0
 	}
 	base["ownComplaint"] = 0
+	base["ownExists"] = 0
+	base["ownAns"] = 0
+	base["ownChecked"] = 0
 	base["vecRejected"] = 0
 	base["ended"] = 0
 	var out []AState
@@ -151,6 +233,7 @@ func (d *dkgAnchors) initialStates() []AState {
 }
 
 func (d *dkgAnchors) build(w *World, proto string, t *types.Named) *tsys {
+	vecFn := d.role(t, "vector")
 	ts := &tsys{proto: proto, states: map[string]AState{}, pred: map[string]*transition{}, methods: d.methodsOf(w, t)}
 	var work []AState
 	for _, s := range d.initialStates() {
@@ -177,13 +260,13 @@ func (d *dkgAnchors) build(w *World, proto string, t *types.Named) *tsys {
 				// ghost: the dealer's vector was rejected (Disqualify issued while taking in the vector)
 				inVec := false
 				for _, tr := range o.Trace {
-					if tr == "receiveVerifVector" {
+					if tr == vecFn {
 						inVec = true
 					}
 				}
 				if inVec {
 					for _, e := range o.Effects {
-						if e.Kind == "call" && strings.HasPrefix(e.What, "processor.Disqualify") && e.Fn != "" && strings.Contains(e.Fn, "receiveVerifVector") {
+						if e.Kind == "call" && strings.HasPrefix(e.What, "processor.Disqualify") && e.Fn != "" && strings.HasSuffix(e.Fn, ")."+vecFn) {
 							o.Post["vecRejected"] = 1
 						}
 					}
@@ -583,6 +666,7 @@ func ruleC08(w *World) {
 	w.floor("C08.R5", 3)
 	w.floor("C08.R6", 2)
 	w.floor("C08.R7", 5)
+	w.floor("C08.R8", 1)
 	d := w.dkg("C08.R1")
 	if d == nil {
 		return
@@ -617,9 +701,13 @@ func ruleC08(w *World) {
 	}
 	// R2 duplicates / late messages only flag
 	for name, ts := range sys {
-		type rr struct{ trace, flag string }
-		for _, r := range []rr{{"receiveShare", "xReceived"}, {"receiveVerifVector", "vAReceived"}, {"receiveShare", "sharesTimeout"}, {"receiveVerifVector", "sharesTimeout"}, {"receiveComplaint", "complaintsTimeout"}} {
-			if name == "plain" && (strings.Contains(r.flag, "Timeout") || r.trace == "receiveComplaint") {
+		type rr struct{ role, trace, flag string }
+		tt := d.plain
+		if name == "qual" {
+			tt = d.qual
+		}
+		for _, r := range []rr{{"share", d.role(tt, "share"), "xReceived"}, {"vector", d.role(tt, "vector"), "vAReceived"}, {"share", d.role(tt, "share"), "sharesTimeout"}, {"vector", d.role(tt, "vector"), "sharesTimeout"}, {"complaint", d.role(tt, "complaint"), "complaintsTimeout"}} {
+			if name == "plain" && (strings.Contains(r.flag, "Timeout") || r.role == "complaint") {
 				continue
 			}
 			n, bad := 0, ""
@@ -641,7 +729,7 @@ func ruleC08(w *World) {
 				// only paths where the message is from the dealer get that far; effects inside the intake function
 				var eff []string
 				for _, e := range t.Out.Effects {
-					if strings.Contains(e.Fn, r.trace) || e.Kind == "store" {
+					if strings.HasSuffix(e.Fn, ")."+r.trace) || e.Kind == "store" {
 						if e.Kind == "call" && strings.HasPrefix(e.What, "processor.FlagMisbehavior") {
 							continue
 						}
@@ -651,14 +739,14 @@ func ruleC08(w *World) {
 				n++
 				pos = ts.methods[t.Method].Pos()
 				if (len(eff) > 0 || t.Out.Post.key() != t.From.key()) && bad == "" {
-					bad = fmt.Sprintf("with %s already set, %s acts on the message: %v, state %s→%s (%s)", r.flag, r.trace, eff, t.From.short(), t.Out.Post.short(), ts.witness(t.From))
+					bad = fmt.Sprintf("with %s already set, the "+r.role+" intake %s acts on the message: %v, state %s→%s (%s)", r.flag, r.trace, eff, t.From.short(), t.Out.Post.short(), ts.witness(t.From))
 				}
 			}
 			if n == 0 {
-				w.undecided("C08.R2", fmt.Sprintf("%s/%s-when-%s", name, r.trace, r.flag), token.NoPos, "no transition exercises this case (handler or flag not recognised)")
+				w.undecided("C08.R2", fmt.Sprintf("%s/%s-intake-when-%s", name, r.role, r.flag), token.NoPos, "no transition exercises this case (handler or flag not recognised)")
 				continue
 			}
-			w.check(bad == "", "C08.R2", fmt.Sprintf("%s/%s-when-%s", name, r.trace, r.flag), pos, fmt.Sprintf("duplicate/late message only flags the sender (%d transitions)", n), bad)
+			w.check(bad == "", "C08.R2", fmt.Sprintf("%s/%s-intake-when-%s", name, r.role, r.flag), pos, fmt.Sprintf("duplicate/late message only flags the sender (%d transitions)", n), bad)
 		}
 	}
 	// R3 dealer answers every first complaint against it
@@ -666,6 +754,7 @@ func ruleC08(w *World) {
 		ts := sys["qual"]
 		n, bad := 0, ""
 		ak := fmt.Sprintf("processor.Broadcast(tag:%d)", ansTag)
+		cplFn := d.role(d.qual, "complaint")
 		for i := range ts.trans {
 			t := &ts.trans[i]
 			if t.From["isDealer"] != 1 || t.From["running"] != 1 {
@@ -673,7 +762,7 @@ func ruleC08(w *World) {
 			}
 			fresh, answered := false, false
 			for _, e := range t.Out.Effects {
-				if e.Kind == "mapupdate" && strings.Contains(e.Fn, "receiveComplaint") && !strings.Contains(e.Fn, "Answer") && strings.Contains(e.What, "fresh=true") {
+				if e.Kind == "mapupdate" && strings.HasSuffix(e.Fn, ")."+cplFn) && strings.Contains(e.What, "fresh=true") {
 					fresh = true
 				}
 				if e.Kind == "call" && e.What == ak {
@@ -724,6 +813,32 @@ func ruleC08(w *World) {
 			w.check(bad == "", "C08.R4", name+"/invalid-vector-never-keys", ts.methods["HandleBroadcastMsg"].Pos(), fmt.Sprintf("in all %d reachable states after a rejected vector the verdict stays negative and End fails", n), bad)
 		}
 	}
+	// R8 an own complaint recorded as answered is never accepted without the answer having been checked
+	{
+		ts := sys["qual"]
+		n, bad := 0, ""
+		for i := range ts.trans {
+			t := &ts.trans[i]
+			if t.Method != "End" || t.From["running"] != 1 || t.From["sharesTimeout"] != 1 || t.From["complaintsTimeout"] != 1 {
+				continue
+			}
+			if t.From["ownComplaint"] == 1 {
+				n++
+				e := errOf(t.Out)
+				if t.From["ownAns"] == 1 && t.From["ownChecked"] == 0 && t.From["disqualified"] == 0 && !strings.Contains(e, "dkgFailureErrorf") && bad == "" {
+					bad = fmt.Sprintf("End returns `%s` although this participant complained and the dealer's answer to that complaint was never checked against the verification vector (a wrong or unsolicited answer is accepted): %s", e, ts.witness(t.From))
+				}
+				if t.From["ownAns"] == 0 && t.From["disqualified"] == 0 && !strings.Contains(e, "dkgFailureErrorf") && bad == "" {
+					bad = fmt.Sprintf("End returns `%s` although this participant's complaint was never answered: %s", e, ts.witness(t.From))
+				}
+			}
+		}
+		if n == 0 {
+			w.undecided("C08.R8", "qual/own-complaint-resolved-before-keys", token.NoPos, "no End transition from a state with an own complaint (complaint model not recognised)")
+		} else {
+			w.check(bad == "", "C08.R8", "qual/own-complaint-resolved-before-keys", ts.methods["End"].Pos(), fmt.Sprintf("in all %d End transitions after an own complaint, keys are returned only if the complaint was answered and the answer checked", n), bad)
+		}
+	}
 	// R5 ownership of validKey / R6 End / R7 rule shapes (dominance rules on SSA)
 	w.ruleVerdictOwnership("C08.R5", d)
 	w.ruleEndGuards("C08.R6", d)
@@ -752,7 +867,7 @@ func (w *World) ruleVerdictOwnership(rule string, d *dkgAnchors) {
 				return
 			}
 			v := render(st.Val)
-			if strings.HasSuffix(v, ".verifyShare()") {
+			if strings.HasSuffix(v, "."+d.role(d.plain, "verifyShare")+"()") {
 				w.ok(rule, key+":share-check", st.Pos(), "verdict := result of the share check")
 				return
 			}
@@ -769,7 +884,7 @@ func (w *World) ruleVerdictOwnership(rule string, d *dkgAnchors) {
 		w.undecided(rule, "validKey-stores", token.NoPos, "verdict field not found")
 	}
 	// verifyShare is the discrete-log check of the own share against the own public share
-	if vs := w.method(d.plain, "verifyShare"); vs != nil {
+	if vs := w.method(d.plain, d.role(d.plain, "verifyShare")); vs != nil {
 		cs := cgoCalls(vs, "G2_check_log")
 		s := P(vs, 0)
 		okk := len(cs) == 1 && render(cs[0].Call.Args[0]) == "&"+s+".x" && strings.HasPrefix(render(cs[0].Call.Args[1]), "&"+s+".y["+s+".dkgCommon.myIndex]")
@@ -857,7 +972,7 @@ func (w *World) ruleDisqualificationRules(rule string, d *dkgAnchors) {
 		found := false
 		var pos token.Pos
 		for _, s := range sites {
-			if s.fn.Name() != wt.fn || !types.Identical(deref(s.fn.Signature.Recv().Type()), wt.typ) {
+			if !types.Identical(deref(s.fn.Signature.Recv().Type()), wt.typ) {
 				continue
 			}
 			all := true
@@ -888,7 +1003,7 @@ func (w *World) ruleDisqualificationRules(rule string, d *dkgAnchors) {
 				found, pos = true, s.ins.Pos()
 			}
 		}
-		w.check(found, rule, wt.key, pos, "disqualification rule present with the documented condition", "no Disqualify call in "+wt.fn+" under the condition "+strings.Join(wt.facts, " ∧ ")+" (rule missing or its comparison changed)")
+		w.check(found, rule, wt.key, pos, "disqualification rule present with the documented condition", "no Disqualify call in the methods of "+wt.typ.Obj().Name()+" under the condition "+strings.Join(wt.facts, " ∧ ")+" (rule missing or its comparison changed)")
 	}
 	// in the Qual protocol every Disqualify of the dealer is accompanied by disqualified := true on the same path
 	for _, s := range sites {
@@ -905,7 +1020,7 @@ func (w *World) ruleDisqualificationRules(rule string, d *dkgAnchors) {
 				}
 				if f := addrField(st.Addr); f != nil && f.Name() == "disqualified" {
 					if st.Block() == blk || st.Block().Dominates(blk) {
-						if isConstBool(st.Val, true) || strings.Contains(render(st.Val), "checkComplaint") {
+						if isConstBool(st.Val, true) || strings.Contains(render(st.Val), d.role(d.qual, "checkComplaint")) {
 							okk = true
 						}
 					}
@@ -945,6 +1060,7 @@ func ruleC07(w *World) {
 	w.floor("C07.R4", 1)
 	w.floor("C07.R5g", 4)
 	w.floor("C07.R6", 3)
+	w.floor("C07.R8", 2)
 	d := w.dkg("C07.R1")
 	if d == nil {
 		return
@@ -1056,29 +1172,32 @@ func ruleC07(w *World) {
 		w.undecided("C07.R1", "verdict-sites", token.NoPos, "no verdict sites found")
 	}
 	// R2 completion-site agreement: the answered-complaint check at the three completion events, each under exactly the documented conditions
-	cc := qualFns["checkComplaint"]
+	cc := qualFns[d.role(d.qual, "checkComplaint")]
 	if cc == nil {
 		w.undecided("C07.R2", "anchor:checkComplaint", token.NoPos, "unresolved anchor")
 	} else {
+		vecN, cplN, ansN := d.role(d.qual, "vector"), d.role(d.qual, "complaint"), d.role(d.qual, "answer")
+		common := []string{"len(", " < ", "Timeout == false", "]#1 == true", "))#0 == true", "dealerIndex"}
 		allowed := map[string][]string{
-			"receiveVerifVector":     {"origin == ", "sharesTimeout == false", "vAReceived == false", "len(data)", "readVerifVector(", "))#0 == true", ".received == true", ".answerReceived == true", "== len(data)"},
-			"receiveComplaint":       {"complaintsTimeout == false", "len(data)", " < ", "origin != ", "!= origin", "complainee == ", "== complainee", "[origin]#1 == true", ".received == false", "vAReceived == true", ".answerReceived == true", "myIndex != ", "!= s.feldmanVSSstate.dkgCommon.myIndex", "dealerIndex"},
-			"receiveComplaintAnswer": {"origin == ", "== origin", "len(data)", " < ", "#1 == true", ".answerReceived == false", ".received == true", "readScalarFrStar(", "vAReceived == true"},
+			vecN: append([]string{"vAReceived == false", "readVerifVector(", ".received == true", ".answerReceived == true"}, common...),
+			cplN: append([]string{".received == false", "vAReceived == true", ".answerReceived == true"}, common...),
+			ansN: append([]string{".answerReceived == false", ".received == true", "readScalarFrStar(", "vAReceived == true"}, common...),
 		}
 		required := map[string][]string{
-			"receiveVerifVector":     {".received == true", ".answerReceived == true"},
-			"receiveComplaint":       {"vAReceived == true", ".answerReceived == true"},
-			"receiveComplaintAnswer": {"vAReceived == true", ".received == true"},
+			vecN: {".received == true", ".answerReceived == true"},
+			cplN: {"vAReceived == true", ".answerReceived == true"},
+			ansN: {"vAReceived == true", ".received == true"},
 		}
+		roleName := map[string]string{vecN: "vector", cplN: "complaint", ansN: "answer"}
 		for fname, al := range allowed {
 			fn := qualFns[fname]
 			if fn == nil {
-				w.undecided("C07.R2", "anchor:"+fname, token.NoPos, "unresolved anchor")
+				w.undecided("C07.R2", "anchor:"+roleName[fname]+"-intake", token.NoPos, "unresolved anchor")
 				continue
 			}
 			calls := callsTo(fn, cc.Name())
 			if len(calls) != 1 {
-				w.viol("C07.R2", fname+"/complaint-check", fn.Pos(), fmt.Sprintf("expected exactly one check of the answered complaint in %s, found %d (a completion event without the check lets honest participants disagree)", fname, len(calls)))
+				w.viol("C07.R2", roleName[fname]+"-intake/complaint-check", fn.Pos(), fmt.Sprintf("expected exactly one check of the answered complaint in %s, found %d (a completion event without the check lets honest participants disagree)", fname, len(calls)))
 				continue
 			}
 			c := calls[0].(ssa.Instruction)
@@ -1106,7 +1225,7 @@ func ruleC07(w *World) {
 					missing = append(missing, r)
 				}
 			}
-			w.check(len(extra) == 0 && len(missing) == 0, "C07.R2", fname+"/complaint-check", c.Pos(), "the answered-complaint check runs under exactly the documented conditions",
+			w.check(len(extra) == 0 && len(missing) == 0, "C07.R2", roleName[fname]+"-intake/complaint-check", c.Pos(), "the answered-complaint check runs under exactly the documented conditions",
 				fmt.Sprintf("the answered-complaint check in %s has missing conditions %v and additional restricting conditions %v: the check would be skipped (or run on missing data) for some arrival orders", fname, missing, extra), fs...)
 			// its positive result disqualifies
 			good := false
@@ -1123,7 +1242,7 @@ func ruleC07(w *World) {
 					}
 				}
 			}
-			w.check(good, "C07.R2", fname+"/complaint-check-result", c.Pos(), "a failed answer sets the verdict", "the result of the answered-complaint check does not reach the verdict")
+			w.check(good, "C07.R2", roleName[fname]+"-intake/complaint-check-result", c.Pos(), "a failed answer sets the verdict", "the result of the answered-complaint check does not reach the verdict")
 		}
 	}
 	// R3 no blind overwrite of complaint records
@@ -1147,11 +1266,41 @@ func ruleC07(w *World) {
 			w.check(okk, "C07.R3", fnKey(fn)+"/fresh-record", mu.Pos(), "a fresh complaint record is installed only after a failed lookup of the same key", "a fresh complaint record overwrites whatever was stored for `"+key+"` (an earlier answer or complaint is lost): honest participants end with different complaint tables", factStrings(fs)...)
 		})
 	}
+	// R8 the stored answer of a complaint record is written once: only for a fresh record or while the record has no answer yet
+	nans := 0
+	for _, fn := range qualFns {
+		instrs(fn, func(ins ssa.Instruction) {
+			c, ok := ins.(ssa.CallInstruction)
+			if !ok || len(c.Common().Args) == 0 {
+				return
+			}
+			a0 := render(c.Common().Args[0])
+			if !strings.HasSuffix(a0, ".answer") || !strings.HasPrefix(a0, "&") {
+				return
+			}
+			if !w.callMayWritePointArg(c, c.Common().Args[0]) {
+				return // readers of the stored answer (the discrete-log check)
+			}
+			nans++
+			fs := factStrings(w.testedBefore(ins)) // the test must have been made on this path; the flag itself is set right after it
+			okk := false
+			for _, f := range fs {
+				if strings.HasSuffix(f, ".answerReceived == false") || strings.HasSuffix(f, "]#1 == false") {
+					okk = true
+				}
+			}
+			w.check(okk, "C07.R8", fnKey(fn)+"/answer-written-once", ins.Pos(), "the answer scalar is stored only into a fresh record or one that has no answer yet",
+				"a complaint answer is parsed into the record without the `no answer stored yet` test dominating it: a second, different answer from the dealer overwrites the first, and participants that processed the complaint in between keep different answers", fs...)
+		})
+	}
+	if nans == 0 {
+		w.undecided("C07.R8", "answer-writes", token.NoPos, "no write of a complaint answer found")
+	}
 	// R5 (Go side) vector intake
 	for _, t := range []*types.Named{d.plain, d.qual} {
-		fn := w.method(t, "receiveVerifVector")
+		fn := w.method(t, d.role(t, "vector"))
 		if fn == nil {
-			w.undecided("C07.R5g", t.Obj().Name()+"/receiveVerifVector", token.NoPos, "unresolved anchor")
+			w.undecided("C07.R5g", t.Obj().Name()+"/vector-intake", token.NoPos, "unresolved anchor")
 			continue
 		}
 		rv := callsTo(fn, "readVerifVector")
@@ -1178,7 +1327,7 @@ func ruleC07(w *World) {
 		w.check(okk, "C07.R5g", fnKey(fn)+"/shares-from-valid-vector", cp[0].Pos(), "public shares derived only from a vector that parsed into G2", "public key shares are computed from a vector that failed to parse / is not in G2", factStrings(fs2)...)
 	}
 	// R7 publicly corrected share adopted only if qualified and the complaint was ours
-	if fn := qualFns["receiveComplaintAnswer"]; fn != nil {
+	if fn := qualFns[d.role(d.qual, "answer")]; fn != nil {
 		n := 0
 		instrs(fn, func(ins ssa.Instruction) {
 			st, ok := ins.(*ssa.Store)
